@@ -186,7 +186,12 @@ def cases(draw: Any, prop: str, tier: str) -> dict:
                     local_avail.append({"t": t, "name": eff})
             elif kind == "wait":
                 tgt = d.pick(local_avail)
-                steps.append({"op": "wait", "t": tgt["t"], "name": tgt["name"]})
+                w_ = {"op": "wait", "t": tgt["t"], "name": tgt["name"]}
+                if tgt in available and d.pct(60):
+                    # published by another phase: ask early, so that the request tends to come first
+                    steps.insert(0 if d.pct(70) else d.int(0, len(steps)), w_)
+                else:
+                    steps.append(w_)
             elif kind == "lookup":
                 # optional / synchronous lookups never wait, whatever the state
                 t, name = d.int(0, ntypes - 1), d.pick(npool)
@@ -916,8 +921,9 @@ def run_case(case: dict, prop: str) -> Outcome:
     decoy = False
     for w in [e for e in tr if e["k"] == "wait-begin"]:
         for p in pubs:
-            if w["t_"] in p["types"] and p["name"] == w["name"] and abs(p["s"] - w["s"]) <= 3 and p["t"] == w["t"]:
-                race = True
+            if (w["t_"] in p["types"] and p["name"] == w["name"] and abs(p["s"] - w["s"]) <= 3 and p["t"] == w["t"]
+                    and p["p"] != w["p"]):
+                race = True  # another component publishes within 3 trace events of the request
             if (w["t_"] in p["types"]) != (p["name"] == w["name"]):
                 decoy = True
     if race:
